@@ -585,9 +585,24 @@ def framing(chk):
                 'each message is sent as its UTF-8 bytes followed by CR LF',
                 f'send_message frames {samples[0]} as {stream!r}, the protocol requires b"ab\\r\\nc\\r\\n"')
     # chunking
-    recv_calls = [n for n in method_calls(rm_fn, 'recv')]
-    chk.floor('C19.R7', 'recv call sites in receive_message', len(recv_calls), 1)
-    one_byte = all(len(n.args) == 1 and isinstance(n.args[0], ast.Constant) and n.args[0].value == 1 for n in recv_calls)
+    # recv call sites of receive_message and of the helper methods it calls (closure over self-calls); when every one asks for exactly one
+    # byte the result cannot depend on how the stream is chunked, otherwise (or when none is recognised) every chunking plan is folded
+    fns_, todo_, seen_ = [], [rm_fn], set()
+    while todo_:
+        g_ = todo_.pop()
+        if id(g_) in seen_:
+            continue
+        seen_.add(id(g_))
+        fns_.append(g_)
+        for n_ in ast.walk(g_):
+            if isinstance(n_, ast.Call) and isinstance(n_.func, ast.Attribute) and isinstance(n_.func.value, ast.Name) and n_.func.value.id == 'self':
+                for c_ in repo.mro(repo.cls('MessageInterface', 'C19.R7')):
+                    if n_.func.attr in c_.methods:
+                        todo_.append(c_.methods[n_.func.attr])
+                        break
+    recv_calls = [n for g_ in fns_ for n in method_calls(g_, 'recv')]
+    chk.instances('C19.R7', len(recv_calls))
+    one_byte = bool(recv_calls) and all(len(n.args) == 1 and isinstance(n.args[0], ast.Constant) and n.args[0].value == 1 for n in recv_calls)
     n_f = 0
     for msgs in samples:
         data = send_bytes(msgs)
